@@ -17,11 +17,15 @@ package ro
 //@   const config source getOrCreateSubject reset
 
 //@ func ShareWithConfig$1$3
-//@   note the subscribe function of a shared observable
+//@   note the subscribe function of a shared observable; the connector is user code and may panic: no lock is left held and no subscriber stays counted then
 //@   type shareEnv
-//@   props C11 C13
-//@   binds mu refCount getOrCreateSubject config source
-//@   inline ShareWithConfig$1$1
+//@   props C11 C13 C07
+//@   binds mu getOrCreateSubject refCount config source
+//@   panicforks
+//@   maypanic
+//@   nolockleak
+//@   ensures [a-failed-subscription-is-not-counted|C07,C11] panics ==> atunlock(refCount) == atlock(refCount)
+//@   inline ShareWithConfig$1$1 ShareWithConfig$1$3$1
 //@   track source.* currentSubject.* config.* sourceSubscription.* call.NewSubscription call.NewSubscriber NewSubscription().* getOrCreateSubject()#0.* getOrCreateSubject()#1.*
 //@   ensures [counts-one-subscriber|C11] atunlock(refCount) == atlock(refCount) + 1
 //@   ensures [creates-only-when-none|C11] called(call.NewSubscription) ==> atlock(subject) == nil || atlock(sourceSubscription) == nil
@@ -40,7 +44,7 @@ package ro
 //@   ensures [clears-only-the-current-generation|C11] subject == ite(currentSubject == old(subject), nil, old(subject))
 //@   ensures [leaves-the-count-alone|C11,C14] refCount == old(refCount)
 
-//@ func ShareWithConfig$1$3$3
+//@ func ShareWithConfig$1$3$4
 //@   note the teardown of one subscriber
 //@   type shareEnv
 //@   props C11 C13
